@@ -6,6 +6,7 @@ import json, os, re
 import vlib
 
 IMPORTS = "From Aelys Require Import Model.GlobalsSync.\nOpen Scope Z_scope."
+IMPORTS_S = "From Aelys Require Import Extracted.CallCacheConsts Extracted.ReplShape Model.Session.\nOpen Scope Z_scope."
 
 TRUSTED = [
     "Coq 8.16.1 kernel + vm_compute (witnesses, Examples, evaluation of the model on the tie's sessions)",
@@ -49,7 +50,7 @@ def run(ctx):
     if ctx.tier == "thorough" and proved and proved2:
         ctx.coqchk("C14")
         ctx.coqchk("C14Session")
-    ok, out = vlib.coq_make(["Base/CaseCheck.vo", "Model/GlobalsSync.vo"])
+    ok, out = vlib.coq_make(["Base/CaseCheck.vo", "Model/GlobalsSync.vo", "Model/Session.vo"])
     if not ok:
         ctx.broken.append("coq: model files for the C14 tie do not build")
         ctx.log(out[-2000:])
@@ -58,6 +59,7 @@ def run(ctx):
     n_cases = 300 if ctx.tier == "quick" else 4000
     profiles = ["dev"] if ctx.tier == "quick" else ["dev", "release"]
     total, nsteps = 0, 0
+    s_total, s_untranslated = 0, {}
     distinct = set()
     kinds, by_sig = {}, {}
     for prof in profiles:
@@ -68,8 +70,11 @@ def run(ctx):
             return
         rc, out = vlib.sh([paths["hx_repl"], "--seed", str(ctx.seed), "--n", str(n_cases)], timeout=1500)
         cases = []
+        sess = {}
         for line in out.splitlines():
             f = line.split("\t")
+            if len(f) >= 7 and f[0] == "SESS":
+                sess[f[1]] = {"ok": f[2] == "1", "code": f[3], "steps": f[4], "expect": f[5], "why": f[6]}
             if len(f) >= 9 and f[0] == "CASE":
                 cases.append({"seed": f[1], "query": f[2], "observed": f[3], "real": f[4].split(" ;; "), "oracle": f[5].split(" ;; "),
                               "source": f[6], "problems": f[7], "kinds": f[8], "stale": len(f) > 9 and f[9] == "1"})
@@ -98,6 +103,23 @@ def run(ctx):
             ctx.broken.append("correspondence C14: model evaluation failed")
             ctx.log(err[-3000:])
         failset = set(fails)
+        # the whole session as code + driver steps of Model/Session.v (layouts, arities, module units and export
+        # registrations read off the real compiled units): well formed, specified, and the by-name specification and the
+        # two-view machine both print exactly what the real session printed, step by step
+        scases = [(c["seed"], sess[c["seed"]]) for c in cases if c["seed"] in sess and sess[c["seed"]]["ok"]]
+        untranslated = [sess[c["seed"]]["why"] if c["seed"] in sess else "no SESS line" for c in cases if not (c["seed"] in sess and sess[c["seed"]]["ok"])]
+        s_total += len(scases)
+        for w in untranslated:
+            s_untranslated[w] = s_untranslated.get(w, 0) + 1
+        sfails, serr = vlib.coq_eval_cases("c14s", IMPORTS_S, "session_tie", "sobs_eqb",
+                                           [(f"({x['code']}, {x['steps']})", x["expect"]) for _, x in scases], shard=20)
+        if serr:
+            ctx.broken.append("correspondence C14: evaluation of Model/Session.v failed")
+            ctx.log(serr[-3000:])
+        sfail_seeds = {scases[i][0] for i in sfails}
+        for i, c in enumerate(cases):
+            if c["seed"] in sfail_seeds:
+                failset.add(i)
         # No failure class is excused any more (KF-C14-1..4 are repaired): a step that differs from the session's
         # reference semantics is a violation with the session as the failing input; so is a host call that finds
         # frames of an earlier run on the stack, and a session on which the model mispredicts an observation
@@ -112,9 +134,15 @@ def run(ctx):
             k = first_div(c)
             rep = {"case_seed": c["seed"], "profile": prof, "source": c["source"], "real_steps": c["real"], "oracle_steps": c["oracle"],
                    "observed": c["observed"], "model_query": c["query"], "first_step_differing_from_oracle": k}
-            if i in failset:
+            if i in failset and i in set(fails):
                 mo, _ = vlib.coq_eval_terms("c14", IMPORTS, [f"session_obs_noflags ({c['query']})"])
                 rep["model"] = mo[0]
+            if c["seed"] in sfail_seeds:
+                x = sess[c["seed"]]
+                mo, _ = vlib.coq_eval_terms("c14s", IMPORTS_S, [f"session_tie ({x['code']}, {x['steps']})", f"session_machine ({x['code']}, {x['steps']})"])
+                rep["session_model"] = {"code": x["code"], "steps": x["steps"], "real_observations": x["expect"],
+                                        "specification_and_machine (marker -1: ill-formed layouts, -2: unspecified, -3: they differ)": mo[0] if mo else None,
+                                        "machine_alone": mo[1] if mo and len(mo) > 1 else None}
             if k is not None:
                 ctx.violation("c14:session-divergence", f"step {k} of the session does not do what the session's reference semantics say "
                               f"(real {c['real'][k] if k < len(c['real']) else None!r}, expected {c['oracle'][k] if k < len(c['oracle']) else None!r})", rep)
@@ -122,7 +150,7 @@ def run(ctx):
                 ctx.violation("c14:frames-left-between-steps", "a host call found frames of an earlier run on the VM's frame stack", rep)
             else:
                 ctx.violation("c14:model-mismatch", "the implementation follows the property on this session but the model "
-                              "predicts other observations: Model/GlobalsSync.v no longer describes the code", rep)
+                              "predicts other observations: Model/GlobalsSync.v / Model/Session.v no longer describe the code", rep)
         if div:
             by_sig["c14:session-divergence"] = by_sig.get("c14:session-divergence", 0) + len(div)
         if mism:
@@ -131,6 +159,10 @@ def run(ctx):
     ctx.cov["evaluations"] = total
     ctx.cov["distinct_nontrivial"] = len(distinct)
     ctx.cov["session_steps"] = nsteps
+    ctx.cov["sessions_checked_against_Model_Session"] = s_total
+    ctx.cov["sessions_not_translated_to_Model_Session"] = s_untranslated
+    if total and s_total * 10 < total * 9:
+        ctx.broken.append("tie C14: fewer than 90%% of the generated sessions could be translated to Model/Session.v (%d of %d)" % (s_total, total))
     ctx.cov["input_distribution"] = {"step_kinds": kinds, "sessions_violating_the_property_by_signature": by_sig}
     ctx.cov["rule"] = ("seeded random sessions of 5-14 steps on one VM: REPL inputs of 1-4 statements (let / let mut of ints and strings, "
                        "redefinitions, assignments and increments of earlier `let mut`, fn definitions and redefinitions of four kinds "
